@@ -2,4 +2,207 @@
 import MelModel.ApplyTx
 import MelModel.Lemmas.Counts
 namespace Mel
+open Mel.Gen
+
+namespace Fees
+
+/-! ### generic facts -/
+
+theorem bind_ok {α β} {x : Outcome α} {f : α → Outcome β} {b : β}
+    (h : x.bind f = .ok b) : ∃ a, x = .ok a ∧ f a = .ok b := by
+  cases x with
+  | ok a => exact ⟨a, rfl, h⟩
+  | reject e => cases h
+  | crash c => cases h
+
+theorem min_min_add (a b c M : Nat) : min (min (a + b) M + c) M = min (a + b + c) M := by
+  simp only [Nat.min_def]
+  split <;> split <;> (try split) <;> omega
+
+theorem sum_map_add {α} (f g : α → Nat) (l : List α) :
+    (l.map f).sum + (l.map g).sum = (l.map fun x => f x + g x).sum := by
+  induction l with
+  | nil => rfl
+  | cons a as ih => simp only [List.map_cons, List.sum_cons, ← ih]; omega
+
+theorem sum_map_congr {α} (f g : α → Nat) (l : List α) (h : ∀ x ∈ l, f x = g x) :
+    (l.map f).sum = (l.map g).sum := by
+  induction l with
+  | nil => rfl
+  | cons a as ih =>
+    simp only [List.map_cons, List.sum_cons]
+    rw [h a (List.mem_cons_self), ih (fun x hx => h x (List.mem_cons_of_mem _ hx))]
+
+/-! ### the coin map after an insertion -/
+
+theorem insertCoin_coins (m : CoinMap) (id : CoinID) (d : CoinDataHeight) (t : Bool) :
+    (m.insertCoin id d t).coins = m.coins.set id d := by
+  unfold CoinMap.insertCoin
+  simp only
+  split <;> rfl
+
+theorem getCoin_insertCoin_self (m : CoinMap) (id : CoinID) (d : CoinDataHeight) (t : Bool) :
+    (m.insertCoin id d t).getCoin id = some d := by
+  simp [CoinMap.getCoin, insertCoin_coins, AList.get_set_self]
+
+theorem getCoin_insertCoin_ne (m : CoinMap) {id id' : CoinID} (d : CoinDataHeight) (t : Bool)
+    (hne : id' ≠ id) : (m.insertCoin id d t).getCoin id' = m.getCoin id' := by
+  simp [CoinMap.getCoin, insertCoin_coins, AList.get_set_ne _ _ hne]
+
+/-! ### the fee step of `createNextState` -/
+
+/-- the minimum fee at a multiplier, 0 if the weight computation crashes -/
+def feeOf (m : Nat) (tx : Tx) : Nat := match tx.baseFee m with | .ok f => f | _ => 0
+
+theorem feeOf_of_ok {m : Nat} {tx : Tx} {f : Nat} (h : tx.baseFee m = .ok f) : feeOf m tx = f := by
+  simp [feeOf, h]
+
+/-- the per-transaction step of `createNextState` -/
+def feeStep (env : Env) (tip906 : Bool) (st : State) (tx : Tx) : Outcome State :=
+  (if tx.kind = .faucet then handleFaucetTx env st tx else .ok st).bind fun st1 =>
+  (Outcome.foldlM' (fun (coins : CoinMap) id => coins.removeCoin id tip906) st1.coins tx.inputs).bind fun coins2 =>
+  (tx.baseFee st1.feeMultiplier).bind fun minFee =>
+    if tx.fee < minFee then .reject .insufficientFees
+    else .ok { st1 with coins := coins2,
+                        tips := satAdd128 st1.tips (tx.fee - minFee),
+                        feePool := satAdd128 st1.feePool minFee,
+                        txs := State.insertTx st1.txs tx }
+
+theorem handleFaucetTx_ok {env : Env} {s s1 : State} {tx : Tx} (h : handleFaucetTx env s tx = .ok s1) :
+    s1.feeMultiplier = s.feeMultiplier ∧ s1.feePool = s.feePool ∧ s1.tips = s.tips := by
+  unfold handleFaucetTx at h
+  simp only at h
+  split at h
+  · cases h
+  · split at h
+    · cases h
+    · split at h <;> (cases h; exact ⟨rfl, rfl, rfl⟩)
+
+theorem feeStep_ok {env : Env} {tip906 : Bool} {st st' : State} {tx : Tx}
+    (h : feeStep env tip906 st tx = .ok st') :
+    ∃ f, tx.baseFee st.feeMultiplier = .ok f ∧ f ≤ tx.fee ∧
+      st'.feeMultiplier = st.feeMultiplier ∧
+      st'.feePool = satAdd128 st.feePool f ∧
+      st'.tips = satAdd128 st.tips (tx.fee - f) := by
+  unfold feeStep at h
+  obtain ⟨st1, h1, h⟩ := bind_ok h
+  obtain ⟨coins2, _, h⟩ := bind_ok h
+  obtain ⟨f, hf, h⟩ := bind_ok h
+  have hst1 : st1.feeMultiplier = st.feeMultiplier ∧ st1.feePool = st.feePool ∧ st1.tips = st.tips := by
+    split at h1
+    · exact handleFaucetTx_ok h1
+    · cases h1; exact ⟨rfl, rfl, rfl⟩
+  obtain ⟨e1, e2, e3⟩ := hst1
+  split at h
+  · cases h
+  · next hlt =>
+    cases h
+    refine ⟨f, ?_, Nat.le_of_not_lt hlt, e1, ?_, ?_⟩
+    · rw [← e1]; exact hf
+    · simp only [e2]
+    · simp only [e3]
+
+/-- the fee fold, started from any state -/
+theorem feeFold (env : Env) (tip906 : Bool) (m : Nat) :
+    ∀ (txs : List Tx) (st0 st : State), st0.feeMultiplier = m →
+      st0.feePool ≤ U128_MAX → st0.tips ≤ U128_MAX →
+      Outcome.foldlM' (feeStep env tip906) st0 txs = .ok st →
+      st.feeMultiplier = m ∧
+      st.feePool = min (st0.feePool + (txs.map (feeOf m)).sum) U128_MAX ∧
+      st.tips = min (st0.tips + (txs.map fun tx => tx.fee - feeOf m tx).sum) U128_MAX ∧
+      ∀ tx ∈ txs, ∃ f, tx.baseFee m = .ok f ∧ f ≤ tx.fee := by
+  intro txs
+  induction txs with
+  | nil =>
+    intro st0 st hm hp ht h
+    simp only [Outcome.foldlM'] at h
+    cases h
+    refine ⟨hm, ?_, ?_, ?_⟩
+    · simp only [List.map_nil, List.sum_nil, Nat.add_zero]; exact (Nat.min_eq_left hp).symm
+    · simp only [List.map_nil, List.sum_nil, Nat.add_zero]; exact (Nat.min_eq_left ht).symm
+    · intro tx htx; cases htx
+  | cons tx rest ih =>
+    intro st0 st hm hp ht h
+    simp only [Outcome.foldlM'] at h
+    split at h
+    · next st1 hstep =>
+      obtain ⟨f, hf, hle, e1, e2, e3⟩ := feeStep_ok hstep
+      rw [hm] at hf
+      have hfo : feeOf m tx = f := feeOf_of_ok hf
+      have hp1 : st1.feePool ≤ U128_MAX := by rw [e2]; exact Nat.min_le_right _ _
+      have ht1 : st1.tips ≤ U128_MAX := by rw [e3]; exact Nat.min_le_right _ _
+      obtain ⟨i1, i2, i3, i4⟩ := ih st1 st (e1.trans hm) hp1 ht1 h
+      refine ⟨i1, ?_, ?_, ?_⟩
+      · rw [i2, e2, satAdd128, min_min_add]
+        simp only [List.map_cons, List.sum_cons, hfo, Nat.add_assoc]
+      · rw [i3, e3, satAdd128, min_min_add]
+        simp only [List.map_cons, List.sum_cons, hfo, Nat.add_assoc]
+      · intro tx' htx'
+        rcases List.mem_cons.mp htx' with rfl | hmem
+        · exact ⟨f, hf, hle⟩
+        · exact i4 tx' hmem
+    · cases h
+    · cases h
+
+theorem createNextState_eq (env : Env) (s : State) (txs : List Tx) (rel : Relevant) (tip906 : Bool) :
+    ∃ coins1, createNextState env s txs rel tip906 =
+      Outcome.foldlM' (feeStep env tip906) { s with coins := coins1 } txs :=
+  ⟨_, rfl⟩
+
+theorem createNextState_fees {env : Env} {s next : State} {txs : List Tx} {rel : Relevant} {tip906 : Bool}
+    (h : createNextState env s txs rel tip906 = .ok next)
+    (hp : s.feePool ≤ U128_MAX) (ht : s.tips ≤ U128_MAX) :
+    next.feeMultiplier = s.feeMultiplier ∧
+    next.feePool = min (s.feePool + (txs.map (feeOf s.feeMultiplier)).sum) U128_MAX ∧
+    next.tips = min (s.tips + (txs.map fun tx => tx.fee - feeOf s.feeMultiplier tx).sum) U128_MAX := by
+  obtain ⟨coins1, heq⟩ := createNextState_eq env s txs rel tip906
+  rw [heq] at h
+  obtain ⟨i1, i2, i3, _⟩ := feeFold env tip906 s.feeMultiplier txs { s with coins := coins1 } next rfl hp ht h
+  exact ⟨i1, i2, i3⟩
+
+/-- the threshold part needs no bound on the accumulators -/
+theorem feeFold_threshold (env : Env) (tip906 : Bool) (m : Nat) :
+    ∀ (txs : List Tx) (st0 st : State), st0.feeMultiplier = m →
+      Outcome.foldlM' (feeStep env tip906) st0 txs = .ok st →
+      ∀ tx ∈ txs, ∃ f, tx.baseFee m = .ok f ∧ f ≤ tx.fee := by
+  intro txs
+  induction txs with
+  | nil => intro _ _ _ _ tx htx; cases htx
+  | cons tx rest ih =>
+    intro st0 st hm h
+    simp only [Outcome.foldlM'] at h
+    split at h
+    · next st1 hstep =>
+      obtain ⟨f, hf, hle, e1, _, _⟩ := feeStep_ok hstep
+      rw [hm] at hf
+      intro tx' htx'
+      rcases List.mem_cons.mp htx' with rfl | hmem
+      · exact ⟨f, hf, hle⟩
+      · exact ih st1 st (e1.trans hm) h tx' hmem
+    · cases h
+    · cases h
+
+theorem createNextState_threshold {env : Env} {s next : State} {txs : List Tx} {rel : Relevant} {tip906 : Bool}
+    (h : createNextState env s txs rel tip906 = .ok next) :
+    ∀ tx ∈ txs, ∃ f, tx.baseFee s.feeMultiplier = .ok f ∧ f ≤ tx.fee := by
+  obtain ⟨coins1, heq⟩ := createNextState_eq env s txs rel tip906
+  rw [heq] at h
+  exact feeFold_threshold env tip906 s.feeMultiplier txs { s with coins := coins1 } next rfl h
+
+/-- what an accepted batch says about its `createNextState` -/
+theorem applyBatch_next {env : Env} {s s' : State} {txs : List Tx} {fb : Header}
+    (h : applyBatch env s txs fb = .ok s') :
+    ∃ rel next, createNextState env s txs rel s.tip906 = .ok next ∧
+      s'.feePool = next.feePool ∧ s'.tips = next.tips ∧ s'.feeMultiplier = next.feeMultiplier := by
+  unfold applyBatch at h
+  obtain ⟨rel, _, h⟩ := bind_ok h
+  obtain ⟨newStakes, _, h⟩ := bind_ok h
+  simp only at h
+  obtain ⟨_, _, h⟩ := bind_ok h
+  obtain ⟨newSpeed, _, h⟩ := bind_ok h
+  obtain ⟨next, hn, h⟩ := bind_ok h
+  cases h
+  exact ⟨rel, next, hn, rfl, rfl, rfl⟩
+
+end Fees
 end Mel
